@@ -393,6 +393,11 @@ def dropFrame (r : M (Sw × Frame × List Out)) : M (Sw × List Out) :=
 def rxWire (var : Variant) (sw : Sw) (f : Frame) (inPort : Nat) (wire : Bytes) : M (Sw × List Out) :=
   dropFrame (rxThen (fun sw f inPort pd => lookupPacket (run var depth) sw f inPort pd) sw f inPort (some wire))
 
+/-- `rx_packet(packet, in_port)` called with a packet object only (no `packet_data`): the receive byte counter and a
+table-miss packet-in then use `packet.pack()` (switch.py:512-513, 537-538) -/
+def rxObj (var : Variant) (sw : Sw) (f : Frame) (inPort : Nat) : M (Sw × List Out) :=
+  dropFrame (rxThen (fun sw f inPort pd => lookupPacket (run var depth) sw f inPort pd) sw f inPort none)
+
 /-- `_rx_packet_out` with `data`: `_process_actions_for_packet(actions, ethernet.unpack(data), in_port)` -/
 def packetOut (var : Variant) (sw : Sw) (acts : List Action) (f : Frame) (inPort : Nat) : M (Sw × List Out) :=
   dropFrame (run var (depth + 1) sw acts f inPort)
@@ -448,6 +453,8 @@ inductive Op where
   | flowAdd (r : Rule)
   | packetOut (acts : List Action) (f : Frame) (inPort : Nat)
   | rx (f : Frame) (inPort : Nat) (wire : Bytes)
+  /-- a packet object handed to `rx_packet` without its wire bytes -/
+  | rxObj (f : Frame) (inPort : Nat)
   /-- the physical link of a port goes down / comes back (set on the port object by the harness) -/
   | link (port : Nat) (down : Bool)
 
@@ -457,6 +464,7 @@ def step (var : Variant) (sw : Sw) : Op → M (Sw × List Out)
   | .flowAdd r => .ok ({ sw with table := sw.table ++ [r] }, [])
   | .packetOut acts f inPort => packetOut var sw acts f inPort
   | .rx f inPort wire => rxWire var sw f inPort wire
+  | .rxObj f inPort => rxObj var sw f inPort
   | .link no down =>
     .ok ({ sw with ports := mapPort sw.ports no fun p =>
             { p with state := if down then clearBits p.state PS_LINK_DOWN ||| PS_LINK_DOWN
